@@ -196,10 +196,22 @@ def run(facts, tr, rep):
         start = pc.target
         r = pg.reach([start], kinds=(N,), avoid_nodes=nexts)
         rets = [x for x in r if pg.term(x)["k"] == "return"]
-        rep.ob("C20.LISTEN-LOOP", site_key(pb, "emit-loop"), bool(nexts) and not rets, pc.where(),
-               "after a listener returns or panics the loop proceeds to the next listener (no return reachable from the "
-               "catch_unwind result without asking the iterator again)" if (nexts and not rets)
-               else "a return is reachable after catch_unwind without visiting the remaining listeners")
+        # diverging calls (resume_unwind, panic!, process::abort ...) and explicit unwinding are exits too
+        div = []
+        for x in r:
+            t = pg.term(x)
+            if t["k"] == "call" and t["target"] is None:
+                div.append(x)
+            if t["k"] == "call":
+                cx = Call(pg, x, t)
+                if cx.name in ("resume_unwind", "panic_any", "panic_fmt", "begin_panic", "abort", "exit"):
+                    div.append(x)
+        bad = rets + div
+        rep.ob("C20.LISTEN-LOOP", site_key(pb, "emit-loop"), bool(nexts) and not bad, pc.where(),
+               "after a listener returns or panics the loop proceeds to the next listener (no return, re-raised panic or other "
+               "exit is reachable from the catch_unwind result without asking the iterator again)" if (nexts and not bad)
+               else "an exit (%s at %s) is reachable after catch_unwind without visiting the remaining listeners: a listener's panic "
+               "can escape or cut the notification short" % ("return" if rets else "diverging call / re-raised panic", pg.where(bad[0]) if bad else "-"))
         # emit returns unit
         rt = pb.local_ty(0)["s"]
         rep.ob("C20.LISTEN-UNIT", site_key(pb, "emit-ret"), rt == "()", pc.where(), "emit returns %s" % rt)
